@@ -114,6 +114,11 @@ Case genGp() {
   Case c;
   c.p["subj"] = g.subj;
   c.p["clip"] = g.clip;
+  if (g.shape.rfind("large", 0) == 0) {   // measured, because a generator whose large cases were all discarded would be decoration
+    Paths64 all = g.subj; all.insert(all.end(), g.clip.begin(), g.clip.end());
+    int64_t m = O::maxAbs(all);
+    ST.count(O::generalPosition(O::segsOf(all), 3.0L + (ld)m * ldexpl(1.0L, -40)) ? "large_case_in_general_position" : "large_case_discarded");
+  }
   return c;
 }
 
